@@ -109,10 +109,6 @@ Proof.
 Qed.
 
 (* ------------------------------------------------------------------ bridge to the generic theorem *)
-Definition key := (string * (Z * Z))%type.
-Definition key_eqb (x y : key) : bool :=
-  String.eqb (fst x) (fst y) && (fst (snd x) =? fst (snd y)) && (snd (snd x) =? snd (snd y)).
-
 Lemma key_eqb_spec : forall x y, key_eqb x y = true <-> x = y.
 Proof.
   intros [s [a b]] [s' [a' b']]. unfold key_eqb. cbn.
